@@ -78,6 +78,10 @@ def call_entry(rng, entry, cls, model, invalid=True, warm=False):
             pk["diffusion_curve_set"] = cs
             return perv.non_ideal_isothermal_process(**pk) if entry == "nonideal_iso" else perv.non_ideal_non_isothermal_process(**pk)
         if entry == "pure_flux":
+            if Tperm is not None and pperm is not None and rng.random() < 0.5:
+                # both stated and even (nearly) consistent with each other - the pressure is the vapour pressure at the stated
+                # temperature, to a few per cent or exactly: still two conditions where one is allowed
+                pperm = float(mix0.first_component.get_vapor_pressure(Tperm)) * rng.choice([1.0, rng.uniform(0.96, 1.04), 1.0 + 1e-9])
             return membrane.get_estimated_pure_component_flux(T, mix0.first_component, Tperm, pperm)
         if entry == "curve_from_fluxes":
             return pv.DiffusionCurve(mixture=mix, membrane_name="v", feed_temperature=T, feed_compositions=[c],
